@@ -1165,10 +1165,9 @@ class Driver:
                 return [(s2, True), (s, False)]
             return [(s, CBool("hasattr"))]
         if n == "mod:np.spacing" and len(args) == 1:
-            # the gap to the next float: a non-negative number (x > np.spacing(x) is "x is positive and not negligible")
-            sym = s.fresh("spacing")
-            s.add(Con(Lin.sym(sym), ">="))
-            return [(s, Lin.sym(sym))]
+            # the gap to the next float: a non-negative, negligible number -- `x > np.spacing(x)` is read as `x > 0` ("x is positive
+            # and not negligible"); no symbol of its own (every fresh symbol multiplies the cost of the feasibility tests)
+            return [(s, Lin({}, 0))]
         if n == "global:myclock" or n.startswith("mod:time"):
             return [(s, Opq("clock"))]
         if n == "mod:field.fieldlist":
